@@ -96,7 +96,7 @@ def run_scenarios(ctx, builds, scen, label, tlc_timeout):
         else:
             lines.append("hmac %s %d %s %s %s" % (s["alg"], s["align"], hexs(s["key"]), hexs(s["msg"]), cs))
     obs = [[] for _ in scen]
-    paths = {}
+    paths = {}; nanswers = 0
     for bname, exe in builds:
         res = common.batch_run(exe, lines, timeout=600)
         for i, a in enumerate(res):
@@ -112,6 +112,7 @@ def run_scenarios(ctx, builds, scen, label, tlc_timeout):
                 raise common.Infra("driver %s answered garbage for %s: %s" % (bname, lines[i][:200], a[:300]))
             if o.get("consumed") != len(s["msg"]) or len(o["ups"]) != len(s["chunks"]):
                 raise common.Infra("driver %s did not consume the scenario: %s -> %s" % (bname, lines[i][:200], a[:300]))
+            nanswers += 1
             paths.setdefault((ALGS[s["alg"]][2], o["path"]), 0)
             paths[(ALGS[s["alg"]][2], o["path"])] += 1
             rec = {"b": [bname + "/" + o["path"]], "ups": [{"count": u["count"], "buf": ints(u["buf"])} for u in o["ups"]],
@@ -174,6 +175,6 @@ def run_scenarios(ctx, builds, scen, label, tlc_timeout):
             ctx.fail(key, json.dumps(detail, indent=1), {"driver_line": lines[i], "build": rp["build"], "report": rp})
     for k, n in seen.items():
         if n > 1: ctx.log("key %s: %d scenarios failed in total" % (k, n))
-    ctx.add(evaluations=sum(len(o) for o in obs), traces_validated_against_impl=len(kept),
+    ctx.add(evaluations=nanswers, traces_validated_against_impl=len(kept),
             events_validated=expected_states - len(kept))
     return paths
